@@ -18,7 +18,9 @@ EXPLANATION = (
     "written from the standard): it must be well-formed - every sort and symbol declared before use and once, "
     "well-sorted, simultaneous let, binder scoping - and its single assertion must denote the skeleton: "
     "structurally equal after let-expansion, or equal in value under every assignment over small domains "
-    "(R9).  Exhaustive dispatch of both printers over the operator universe (R0).")
+    "(R9).  Every script of the import corpus (~120, with push / pop, definitions, re-declarations after a pop), "
+    "written again by the interpreted SmtLibScript.serialize in both forms, is well-formed for the independent reader "
+    "- which forgets declarations at a pop - and has the live assertions of the original (R8).  Exhaustive dispatch of both printers over the operator universe (R0).")
 NOT_DECIDED = ["formulas outside the skeleton menu (deeper nesting, other constants): the rule decides the menu, "
                "which covers every operator, every constant kind and every naming hazard listed above",
                "denotation of array-valued terms is compared structurally only (no array model in the evaluator)"]
@@ -38,6 +40,21 @@ def run(ctx):
         dispatch_rule(ctx, rs, TREE, exempt=T.EXEMPT_PRINT)
         dispatch_rule(ctx, rs, DAGP, exempt=T.EXEMPT_PRINT)
         ctx.floor(rs, 120)
+
+    if ctx.want("R8"):
+        rs = ctx.rule("R8", "scripts written by SmtLibScript.serialize (commands incl. push / pop and re-declarations) are well-formed for the independent reader and keep the live assertions")
+        from . import text_deep as td
+        for r in td.import_results(repo, ctx.tier):
+            re_ = r.get("reexport")
+            if re_ is None:
+                continue
+            if re_[0] == "valid":
+                rs.ok({"script": r["name"], "result": re_[1]})
+            elif re_[0] == "invalid":
+                ctx.finding(rs, "script-export|%s" % r["name"], "script %s: %s" % (r["name"], re_[1]), "pysmt/smtlib/script.py")
+            else:
+                rs.unrec("%s: %s" % (r["name"], re_[1][:160]))
+        ctx.floor(rs, 60)
 
     if ctx.want("R9"):
         rs = ctx.rule("R9", "exported text read by the independent reader: well-formed and denotes the skeleton")
